@@ -479,9 +479,11 @@ def _safe_cull(b, img, cond, skip_truth, coords):
 
 def no_extra_skips(ctx, rule='K8'):
     """inside the rasterisers nothing but the per-pixel clip test (and culls of tiles / rows that lie wholly outside the canvas)
-    decides whether a pixel is blended: no other guard on the blend call, no early loop exit"""
+    decides whether a pixel is blended.  Path rule, per loop of the nest around the blend call: every way from the loop header back
+    to the header (or out of the loop, other than by exhaustion) that does NOT pass through the blend call (for outer loops: through
+    the next inner loop) must have branched at a recognised condition - a test on the target coordinate, a loop test, or a cull that
+    is provably off-canvas.  A skip decided by anything else (`if is_normal && pixel == backdrop { continue }`) is reported."""
     import poly as P
-    fx = ctx.fx
     for fn in RASTER:
         b = ctx.anchor(fn)
         if b is None:
@@ -492,32 +494,79 @@ def no_extra_skips(ctx, rule='K8'):
                 continue
             coords = [(0, dst[2][1]), (1, dst[2][2])]
             cps = [P.poly(t) for _, t in coords]
-            extra = []
-            for cond, vals, a in q.guards(b, c.bb):
+
+            def recognised(sw):
+                cond = q.switch_cond(b, sw)
                 if cond[0] == 'discr' and cond[1][0] == 'next':
-                    continue
-                truth = q.bool_outcome(b, a, vals)
+                    return True
                 if cond[0] == 'bin' and (P.poly(cond[2]) in cps or P.poly(cond[3]) in cps):
-                    continue            # a clip test on the target coordinate itself (judged by the clip rule)
+                    return True
                 if cond[0] == 'call' and cond[1] == 'std::ops::Range::contains' and P.poly(cond[2][1]) in cps:
-                    continue
-                if truth is not None and _safe_cull(b, img, cond, not truth, coords):
-                    continue
-                extra.append(show(cond)[:90])
-            for L in b.cfg.loops_containing(c.bb):
-                for x, y, kind in q.loop_exit_kinds(b, L):
-                    if kind in ('exhausted', 'unreachable'):
+                    return True
+                # a materialised bool (`a && b`, `x_in_bounds`): recognised if every constituent test is
+                for truth in (True, False):
+                    if _safe_cull(b, img, cond, truth, coords):
+                        return True
+                return False
+            loops = sorted(b.cfg.loops_containing(c.bb), key=lambda L: len(L['body']))
+            extra = []
+            target = c.bb
+            for L in loops:
+                body_ = set(L['body'])
+                ends = {x for x, _ in L['back_edges']}
+                seen = set()
+                work = [(L['header'], False, None)]
+                while work:
+                    x, allowed, via = work.pop()
+                    if (x, allowed) in seen or x == target:
                         continue
-                    tx = b.blocks[x]['term']
-                    okx = False
-                    if tx['k'] == 'switch':
-                        cond = q.switch_cond(b, x)
-                        vals = q.edge_value(b, x, y)
-                        truth = q.bool_outcome(b, x, vals)
-                        okx = truth is not None and _safe_cull(b, img, cond, truth, coords)
-                        if not okx:
-                            extra.append('early exit under ' + show(cond)[:80])
-                    else:
-                        extra.append('early exit')
-            ctx.inst(rule, fn.split('::')[-1] + '#only-clip-guards', not extra, 'conditions other than the per-pixel clip test that decide whether a pixel is drawn: %s'
-                     % (extra or 'none (culls of wholly off-canvas rows/tiles would be accepted)'), c.span, key=ctx.key(fn, rule, 'extra-skip', ''))
+                    seen.add((x, allowed))
+                    t = b.blocks[x]['term']
+                    succs = [s_ for s_ in b.cfg.succ[x] if not b.blocks[s_]['cleanup']]
+                    rec = None
+                    if t and t['k'] == 'switch':
+                        rec = recognised(x)
+                        if rec is False and via is None:
+                            via = show(q.switch_cond(b, x))[:90]
+                    for s_ in succs:
+                        # only the edge that gives up on this pixel / tile (the blend target is out of reach from it) is a skip edge
+                        gives_up = target not in b.cfg.reachable_from(s_, avoid={L['header']}) if s_ != L['header'] else True
+                        a2 = allowed or (rec is True and gives_up)
+                        leaving = s_ not in body_
+                        back = (x in ends and s_ == L['header'])
+                        if leaving:
+                            tt = b.blocks[s_]['term']
+                            dead = bool(tt) and tt['k'] == 'unreachable' and not b.blocks[s_]['stmts']
+                            if not dead and not a2:
+                                extra.append('leaves the loop under %s' % (via or 'an unrecognised condition'))
+                            continue
+                        if back:
+                            if not a2:
+                                extra.append('skips the pixel under %s' % (via or 'an unrecognised condition'))
+                            continue
+                        work.append((s_, a2, via))
+                target = L['header']
+            extra = sorted(set(extra))
+            ctx.inst(rule, fn.split('::')[-1] + '#only-clip-guards', not extra, 'ways around the blend call that are not decided by the clip test or an off-canvas cull: %s'
+                     % (extra or 'none'), c.span, key=ctx.key(fn, rule, 'extra-skip', ''))
+
+
+def layer_image_unconditional(ctx, rule='R5'):
+    """Cel::image / Tilemap::image (through layer_image) draw the cel whenever it exists: the write_cel call is guarded by nothing
+    but the Some-ness of framedata.cel(cel_id) - in particular not by layer visibility, which only frame compositing consults"""
+    b = ctx.anchor(AF + 'layer_image')
+    if b is None:
+        return
+    ws = q.calls(b, AF + 'write_cel')
+    for c in ws:
+        extra = []
+        for cond, vals, a in q.guards(b, c.bb):
+            subj = cond[1] if cond[0] == 'discr' else (cond[2][0] if cond[0] == 'call' and cond[1] in ('std::option::Option::is_some', 'std::option::Option::is_none') else None)
+            if subj is not None and subj[0] == 'call' and subj[1] == 'asefile::cel::CelsData::cel' and is_param_path(subj[2][0], 1, ['framedata']) and \
+                    is_param(subj[2][1], 2):
+                continue
+            if cond[0] == 'discr' and cond[1][0] == 'try':
+                continue
+            extra.append(show(cond)[:90])
+        ctx.inst(rule, 'layer_image#unconditional', not extra, 'layer_image draws the cel under conditions other than "the cel exists": %s' % (extra or 'none'),
+                 c.span, key=ctx.key(b.name, rule, 'unconditional', ''))
